@@ -67,3 +67,44 @@ SPECS["C05"] = [
 # generated files a property's translation builds on (regenerated together with it)
 DEPENDS = {"C07": ["C06"]}
 IMPORTS["C07"] = ["ArimModel.Src", "ArimProofs.Generated.SrcC06"]
+
+# ---- delay-and-sum kernels, one image point (the prange loop over points is the cell loop)
+DAS_COMMON = [("weighted_timetraces", A(D, 2)), ("tx", A(N, 1)), ("rx", A(N, 1)),
+              ("lookup_times_tx", A(K, 2)), ("lookup_times_rx", A(K, 2))]
+DAS_SHAPES = [("numtimetraces", N), ("numsamples", N), ("point", N)]
+DAS_SKIP = ["numtimetraces, numsamples = weighted_timetraces.shape", "numpoints, _ = lookup_times_tx.shape"]
+DAS_CELL = {"loops": ["point"], "arrays": {"result": (D, ("point",))}}
+
+SPECS["C02"] = [
+    FuncSpec(DAS, "_delay_and_sum_amplitudes_nearest", "das_amplitudes_nearest",
+             DAS_COMMON + [("amplitudes_tx", A(D, 2)), ("amplitudes_rx", A(D, 2)), ("dt", K), ("t0", K), ("fillvalue", D)] + DAS_SHAPES,
+             locals={"res_tmp": D}, skip=DAS_SKIP, cell=DAS_CELL),
+    FuncSpec(DAS, "_delay_and_sum_amplitudes_linear", "das_amplitudes_linear",
+             DAS_COMMON + [("amplitudes_tx", A(D, 2)), ("amplitudes_rx", A(D, 2)), ("dt", K), ("t0", K), ("fillvalue", D)] + DAS_SHAPES,
+             locals={"res_tmp": D}, skip=DAS_SKIP, cell=DAS_CELL, which=-1,
+             doc="the module defines this name twice; the second definition is the one Python keeps"),
+    FuncSpec(DAS, "_delay_and_sum_noamp", "das_noamp_nearest",
+             DAS_COMMON + [("invdt", K), ("t0", K), ("fillvalue", D)] + DAS_SHAPES,
+             locals={"res_tmp": D}, skip=DAS_SKIP, cell=DAS_CELL),
+    FuncSpec(DAS, "_delay_and_sum_noamp_linear", "das_noamp_linear",
+             DAS_COMMON + [("invdt", K), ("t0", K), ("fillvalue", D)] + DAS_SHAPES,
+             locals={"res_tmp": D}, skip=DAS_SKIP, cell=DAS_CELL),
+]
+IMPORTS["C02"] = ["ArimModel.Src"]
+
+# ---- C01: min-plus kernel for one output cell (i, j); pairwise-distance kernel for one cell
+SPECS["C01"] = [
+    FuncSpec(RAY, "_find_minimum_times", "find_minimum_times_cell",
+             [("time_1", A(K, 2)), ("time_2", A(K, 2)), ("init_time", K), ("init_index", I), ("m", N), ("i", N), ("j", N)],
+             skip=["n, m = time_1.shape", "m, p = time_2.shape"],
+             cell={"loops": ["i", "j"], "arrays": {"out_min_times": (K, ("i", "j")), "out_best_indices": (I, ("i", "j"))},
+                   "init": {"out_min_times": "init_time", "out_best_indices": "init_index"}},
+             doc="`init_time`, `init_index`: the values the output arrays hold at (i, j) on entry (inf, -1)"),
+    FuncSpec(GEO, "_distance_pairwise", "distance_pairwise_cell",
+             [("x1", A(K, 1)), ("y1", A(K, 1)), ("z1", A(K, 1)), ("x2", A(K, 1)), ("y2", A(K, 1)), ("z2", A(K, 1)), ("i", N), ("j", N)],
+             skip=["num1, num2 = distance.shape"],
+             cell={"loops": ["i", "j"], "arrays": {"distance": (K, ("i", "j"))}}),
+]
+
+# properties whose theorems are (also) stated about translations that belong to another property's file
+USES = {"C17": ["C01"], "C07": ["C06"]}
